@@ -366,9 +366,12 @@ def s_contains_key(ip, st, fr, name, args, c, site):
 
 # ------------------------------------------------------------------ integers / chars
 
-@S('std::cmp::min', 'std::cmp::max')
+@S('std::cmp::min', 'std::cmp::max', 'std::cmp::Ord::max', 'std::cmp::Ord::min',
+   're:^std::cmp::impls::<impl std::cmp::Ord for (u8|u16|u32|u64|usize|i32|i64|isize)>::(min|max)$')
 def s_minmax(ip, st, fr, name, args, c, site):
     a, b = args
+    if not (isinstance(a, tuple) and isinstance(b, tuple)):
+        raise X.Unanalysable('min/max of non-scalar values', site)
     if name.endswith('min'):
         return [([T.mk_cmp('le', a, b)], lambda ip, s2, f2, a2: a2[0]), ([T.mk_cmp('lt', b, a)], lambda ip, s2, f2, a2: a2[1])]
     return [([T.mk_cmp('le', a, b)], lambda ip, s2, f2, a2: a2[1]), ([T.mk_cmp('lt', b, a)], lambda ip, s2, f2, a2: a2[0])]
@@ -843,23 +846,31 @@ def s_chars_next(ip, st, fr, name, args, c, site):
 
 @S('std::iter::Iterator::collect')
 def s_collect(ip, st, fr, name, args, c, site):
+    """the collected vector in closed form, elements numbered from 0 over the iterated domain:
+         map(dom, k, body(k))                 every element transformed
+         filtermap(dom, k, keep(k), body(k))  the elements with keep(k), in order
+       (loopsum.closed_values gives explicit push loops the same terms).  Closures are evaluated as terms."""
     it = as_iter(ip, st, args[0])
-    if 'rev' in it.kind or 'filter' in it.kind or 'enumerate' in it.kind:
-        # kept symbolic: the consumer rule inspects the adaptor chain and its closures
-        rty0 = c['generics'][1] if len(c.get('generics', [])) > 1 else 'std::vec::Vec<?>'
-        return one(X.Sym(('call', 'std::iter::Iterator::collect', (ip.to_term(st, it),)), rty0))
     rty = c['generics'][1] if len(c.get('generics', [])) > 1 else 'std::vec::Vec<?>'
+    if 'rev' in it.kind or it.zipped is not None or 'take_while' in it.kind or 'inspect' in it.kind:
+        return one(X.Sym(('call', 'std::iter::Iterator::collect', (ip.to_term(st, it),)), rty))
     dom = iter_domain(ip, st, it)
     n = T.mk_sub(it.end, it.pos)
-    if 'map' in it.kind:
-        base_it = X.Iter(it.base, it.pos, it.end, tuple(k for k in it.kind if k != 'map'), it.extra)
+    if it.fns:
+        base_it = X.Iter(it.base, it.pos, it.end, tuple(k for k in it.kind if k not in ('map', 'filter')), it.extra)
         bound = st.fresh_var('k', 'usize')
         elem = iter_elem(ip, st, base_it, T.mk_add(it.pos, bound))
-        body = elem
-        for clo in it.fns:
-            body = ip.eval_closure(st, clo, [body], site)
-            if not isinstance(body, tuple):
-                raise X.Unanalysable('map closure returns a structured value', site)
+        keep = []
+        fkinds = [k for k in it.kind if k in ('map', 'filter')]
+        for kind, clo in zip(fkinds, it.fns):
+            if kind == 'filter':
+                keep.append(ip.eval_closure(st, clo, [X.Ref(X.Cell(elem), ())], site))
+            else:
+                elem = ip.eval_closure(st, clo, [elem], site)
+        body = elem if isinstance(elem, tuple) else ip.to_term(st, elem)
+        if keep:
+            t = ('filtermap', dom, bound, T.conj(keep), body)
+            return one(X.Sym(t, rty))
         t = ('map', dom, bound, body)
     else:
         t = dom
